@@ -74,7 +74,7 @@ def make_fn(mod, mode, n, focus=None, prefix_bytes=b"", checks=None):
 
 def explore(cpu, mode, n, focus=None, prefix_bytes=b"", caps=None, max_paths=3000, budget_s=60, checks=None, timeout_ms=20000):
     mod = isa.load(cpu)
-    c = dict(index=2, format=4, str=4, hash=None)
+    c = dict(index=2, format=4, str=4, hash=6)
     if caps:
         c.update(caps)
     E = symx.Engine(timeout_ms=timeout_ms, caps=c, max_decisions=6000)
@@ -158,24 +158,25 @@ def opsig(e, terms):
         if e._is_cst:
             if isinstance(e, X.cfp):
                 return ("cfp", e.v, e.size)
-            return ("cst", opsig(e.v, terms), e.size, bool(e.sf))
+            return ("cst", opsig(e.v, terms), opsig(e.size, terms), bool(e.sf))
         if e._is_slc:
-            return ("slc", opsig(e.x, terms), opsig(e.pos, terms), e.size)
+            return ("slc", opsig(e.x, terms), opsig(e.pos, terms), opsig(e.size, terms))
         if e._is_reg:
-            return ("reg", e.ref, e.size)
+            return ("reg", e.ref, opsig(e.size, terms))
         if e._is_cmp:
-            return ("comp", tuple((k, opsig(v, terms)) for k, v in sorted(e.parts.items())))
+            items = [((opsig(k[0], terms), opsig(k[1], terms)), opsig(v, terms)) for k, v in e.parts.items()]
+            return ("comp", tuple(sorted(items, key=repr)))
         if e._is_ptr:
             return ("ptr", opsig(e.base, terms), opsig(e.disp, terms), opsig(e.seg, terms) if e.seg is not None else None)
         if e._is_mem:
-            return ("mem", opsig(e.a, terms), e.size, e.endian)
+            return ("mem", opsig(e.a, terms), opsig(e.size, terms), e.endian)
         if e._is_tst:
             return ("tst", opsig(e.tst, terms), opsig(e.l, terms), opsig(e.r, terms))
         if e._is_eqn:
             return ("op", e.op.symbol, opsig(e.l, terms) if e.l is not None else None, opsig(e.r, terms))
         if e._is_vec:
             return ("vec", tuple(opsig(x, terms) for x in e.l))
-        return ("exp", type(e).__name__, e.size)
+        return ("exp", type(e).__name__, opsig(e.size, terms))
     if isinstance(e, (bytes, symx.SBytes)):
         return ("bytes", tuple(opsig(x, terms) for x in e))
     if callable(e):
@@ -193,7 +194,7 @@ def signature(i):
         if k == "misc":
             v = {kk: vv for kk, vv in v.items() if vv is not None}
         attrs[k] = opsig(v, terms)
-    sk = (i.mnemonic, len(i.bytes), i.spec.format if i.spec is not None else None, tuple(sorted(attrs.items(), key=lambda kv: kv[0])))
+    sk = (opsig(i.mnemonic, terms), len(i.bytes), i.spec.format if i.spec is not None else None, tuple(sorted(attrs.items(), key=lambda kv: kv[0])))
     return sk, terms
 
 
